@@ -44,17 +44,18 @@ Ltac hsimpl :=
           ?(hrefs_tx_markup _ _ (hrefs_disp_type _)), ?(hrefs_tx_markup _ _ (hrefs_disp_inst _)), ?app_nil_r; cbn [forallb app andb]).
 
 Lemma emit_ty_attrs_hrefs :
-  (forall t st nm nested, (forall c, In c (refs_ty t nested) -> P (type_href c) = true) ->
+  (forall t st nm nested, (forall c, In c (refs_ty (lk_us cf) t nested) -> P (type_href c) = true) ->
                           forallb P (hrefs (snd (emit_ty cf up st t nm nested))) = true)
-  /\ (forall a st, (forall c, In c (refs_attrs a) -> P (type_href c) = true) ->
+  /\ (forall a st, (forall c, In c (refs_attrs (lk_us cf) a) -> P (type_href c) = true) ->
                    forallb P (hrefs (snd (emit_attrs cf up st a))) = true).
 Proof.
   apply ty_attrs_ind.
   - intros c a IHa st nm nested H. cbn [emit_ty]. cbv zeta. cbn [snd]. cbn [refs_ty] in H.
     assert (Ha : forall st', forallb P (hrefs (snd (emit_attrs cf up st' a))) = true).
     { intros st'. apply IHa. intros c0 Hc. apply H, in_or_app. right. exact Hc. }
-    assert (Hc : nested = true -> P (type_href c) = true). { intros ->. apply H. left. reflexivity. }
-    destruct nested;
+    assert (Hc : nested = true -> linked (lk_us cf) c = true -> P (type_href c) = true).
+    { intros -> EL. apply H. cbn [andb]. rewrite EL. left. reflexivity. }
+    destruct nested; [destruct (linked (lk_us cf) c) eqn:EL|];
       rewrite !vals_of_app, !vals_of_elem, !vals_of_app;
       rewrite (hrefs_opt (ci_port c)), !hrefs_if, hrefs_docp, hrefs_toggle by reflexivity;
       change (attr_vals k_href [(k_class, dep_class (ae_ti cf) (ci_deprecated c))]) with (@nil str);
@@ -62,7 +63,7 @@ Proof.
         change (attr_vals k_href [(k_class, x); (k_id, y)]) with (@nil str) end;
       cbn [app]; rewrite ?app_nil_r; cbn [forallb]; rewrite Pjs; cbn [andb]; rewrite ?forallb_app;
       repeat (apply andb_true_intro; split);
-      first [ exact (Hc eq_refl) | reflexivity | (destruct a; [reflexivity|exact (Ha _)|exact (Ha _)]) | idtac ].
+      first [ exact (Hc eq_refl eq_refl) | reflexivity | (destruct a; [reflexivity|exact (Ha _)|exact (Ha _)]) | idtac ].
   - intros es dep d e IHe st nm nested H. cbn [emit_ty]. cbv zeta. cbn [snd]. cbn [refs_ty] in H.
     hsimpl. rewrite Pjs. cbn [andb]. rewrite (IHe _ _ _ H). reflexivity.
   - intros s st nm nested _. reflexivity.
@@ -73,17 +74,17 @@ Proof.
     destruct isf; hsimpl; rewrite (IHr _ H); reflexivity.
 Qed.
 
-Lemma emit_types_hrefs ts : forall st, (forall c, In c (refs_types ts) -> P (type_href c) = true) ->
+Lemma emit_types_hrefs ts : forall st, (forall c, In c (refs_types (lk_us cf) ts) -> P (type_href c) = true) ->
   forallb P (hrefs (snd (emit_types cf up st ts))) = true.
 Proof.
   induction ts as [|[sn t] r IH]; intros st H; [reflexivity|]. cbn [emit_types]. unfold refs_types in H. cbn [flat_map fst snd] in H.
-  fold (refs_types r) in H. destruct (str_eqb sn namespace_doc_key); [apply IH, H|]. cbv zeta. cbn [snd]. hsimpl.
+  fold (refs_types (lk_us cf) r) in H. destruct (str_eqb sn namespace_doc_key); [apply IH, H|]. cbv zeta. cbn [snd]. hsimpl.
   rewrite (proj1 emit_ty_attrs_hrefs), IH; [reflexivity| |]; intros c Hc; apply H, in_or_app; [right|left]; exact Hc.
 Qed.
 
 Lemma emit_ns_nsl_hrefs :
-  (forall n st, (forall c, In c (refs_ns n) -> P (type_href c) = true) -> forallb P (hrefs (snd (emit_ns cf up st n))) = true)
-  /\ (forall l st, (forall c, In c (refs_nsl l) -> P (type_href c) = true) -> forallb P (hrefs (snd (emit_nsl cf up st l))) = true).
+  (forall n st, (forall c, In c (refs_ns (lk_us cf) n) -> P (type_href c) = true) -> forallb P (hrefs (snd (emit_ns cf up st n))) = true)
+  /\ (forall l st, (forall c, In c (refs_nsl (lk_us cf) l) -> P (type_href c) = true) -> forallb P (hrefs (snd (emit_nsl cf up st l))) = true).
 Proof.
   apply nst_nsl_ind.
   - intros name docs types subs IH st H. cbn [emit_ns]. cbv zeta. cbn [snd]. cbn [refs_ns] in H. hsimpl. rewrite Pjs2. cbn [andb].
@@ -243,7 +244,7 @@ Proof. split; reflexivity. Qed.
 Theorem links_resolve_universal cf roots self :
   ae_ti cf = false -> ae_ni cf = false -> ae_sb cf = false -> lk_up cf = true ->
   In self (site_pages roots) ->
-  (forall c, In c (refs_ns self) -> ref_resolves roots c) ->
+  (forall c, In c (refs_ns (lk_us cf) self) -> ref_resolves roots c) ->
   page_links_ok cf roots self = true.
 Proof.
   intros Hti Hni Hsb Hup Hself Hclosed. unfold page_links_ok, page_hrefs, ns_page, ns_page_sidebar, ns_page_main.
@@ -280,3 +281,77 @@ Theorem links_lookup_only_refuted :
   | [] => False
   end.
 Proof. vm_compute. split; reflexivity. Qed.
+
+(* ---------- the link hypothesis, split: what the front end guarantees / what the generator must do ---------- *)
+Lemma defined_listed ts sn c : In (sn, c) (defined ts) -> str_eqb sn namespace_doc_key = false -> In c (listed ts).
+Proof.
+  unfold defined, listed. intros H Hk. apply in_flat_map in H as (e & He & Hin). apply in_flat_map. exists e. split; [exact He|].
+  destruct (comp_info (snd e)) as [c0|]; [|destruct Hin]. destruct Hin as [E|[]]. injection E as <- <-. rewrite Hk. left. reflexivity.
+Qed.
+Lemma all_defined_listed :
+  (forall n sn c, In (sn, c) (all_defined n) -> str_eqb sn namespace_doc_key = false -> In c (all_listed n))
+  /\ (forall l sn c, In (sn, c) (all_defined_l l) -> str_eqb sn namespace_doc_key = false -> In c (all_listed_l l)).
+Proof.
+  apply nst_nsl_ind.
+  - intros name docs types subs IH sn c H Hk. cbn [all_defined all_listed] in *. apply in_or_app. apply in_app_or in H as [H|H];
+      [left; apply (defined_listed _ _ _ H Hk)|right; apply (IH _ _ H Hk)].
+  - intros sn c [].
+  - intros n IHn r IHr sn c H Hk. cbn [all_defined_l all_listed_l] in *. apply in_or_app. apply in_app_or in H as [H|H];
+      [left; apply (IHn _ _ H Hk)|right; apply (IHr _ _ H Hk)].
+Qed.
+
+Lemma tag_id_ext t1 t2 : ti_is_array t1 = false -> ti_is_array t2 = false -> ti_full_name t1 = ti_full_name t2 ->
+  ti_major t1 = ti_major t2 -> ti_minor t1 = ti_minor t2 -> filter_tag_id t1 = filter_tag_id t2.
+Proof. intros A1 A2 E1 E2 E3. unfold filter_tag_id. rewrite A1, A2, E1, E2, E3. reflexivity. Qed.
+
+(* the generator's part: every DEFINED type that is not a `_` pseudo type is LISTED (gets an element with its tag id) -- so a
+   reference that is written as a link (not to a `_` name) and is defined per the front end resolves *)
+Theorem defined_resolves roots c : linked true c = true -> type_defined roots c -> ref_resolves roots c.
+Proof.
+  intros HL (r' & Hin & Hname & Hseg & sn & c' & Hd & Hsn & Harr & Hfn & HM & Hm).
+  exists r'. split; [exact Hin|]. split; [exact Hname|]. split; [exact Hseg|]. exists c'. split.
+  - apply (proj1 all_defined_listed _ _ _ Hd). rewrite Hsn, Hfn. unfold linked in HL. cbn [andb] in HL.
+    destruct (str_eqb (last_component (link_name (ci_t c))) s_us) eqn:E; [discriminate HL|exact E].
+  - unfold url_anchor. apply tag_id_ext; [exact Harr|reflexivity|exact Hfn|exact HM|exact Hm].
+Qed.
+
+Lemma refs_linked us :
+  (forall t nested c, In c (refs_ty us t nested) -> linked us c = true) /\ (forall a c, In c (refs_attrs us a) -> linked us c = true).
+Proof.
+  apply ty_attrs_ind.
+  - intros c a IHa nested c0 H. cbn [refs_ty] in H. apply in_app_or in H as [H|H]; [|apply IHa, H].
+    destruct (nested && linked us c) eqn:E; [|destruct H]. destruct H as [<-|[]]. apply andb_prop in E as [_ E]. exact E.
+  - intros es dep d e IHe nested c H. apply (IHe _ _ H).
+  - intros s nested c [].
+  - intros c [].
+  - intros nm doc t IHt rest IHr c H. cbn [refs_attrs] in H. apply in_app_or in H as [H|H]; [apply (IHt _ _ H)|apply IHr, H].
+  - intros di isf lb doc rest IHr c H. apply IHr, H.
+Qed.
+Lemma refs_ns_linked us :
+  (forall n c, In c (refs_ns us n) -> linked us c = true) /\ (forall l c, In c (refs_nsl us l) -> linked us c = true).
+Proof.
+  apply nst_nsl_ind.
+  - intros name docs types subs IH c H. cbn [refs_ns] in H. apply in_app_or in H as [H|H]; [|apply IH, H].
+    unfold refs_types in H. apply in_flat_map in H as (e & _ & He). destruct (str_eqb (fst e) namespace_doc_key); [destruct He|].
+    apply (proj1 (refs_linked us) _ _ _ He).
+  - intros c [].
+  - intros n IHn r IHr c H. cbn [refs_nsl] in H. apply in_app_or in H as [H|H]; [apply IHn, H|apply IHr, H].
+Qed.
+
+(* links_resolve with the hypothesis reduced to what the front end guarantees *)
+Theorem links_resolve_defined cf roots self :
+  ae_ti cf = false -> ae_ni cf = false -> ae_sb cf = false -> lk_up cf = true -> lk_us cf = true ->
+  In self (site_pages roots) ->
+  (forall c, In c (refs_ns true self) -> type_defined roots c) ->
+  page_links_ok cf roots self = true.
+Proof.
+  intros A B C D E Hself H. apply links_resolve_universal; try assumption. rewrite E. intros c Hc.
+  apply defined_resolves; [apply (proj1 (refs_ns_linked true) _ _ Hc)|apply H, Hc].
+Qed.
+
+(* and without the guard the link to a `_` type dangles although the front end accepts the reference (finding F-HTML-LINK-US) *)
+Theorem links_us_by_state :
+  page_links_ok (set_lk_us faithful_cfg false) [w_site_us] w_site_us = false
+  /\ page_links_ok (set_lk_us faithful_cfg true) [w_site_us] w_site_us = true
+  /\ page_links_ok faithful_cfg [w_site_us] w_site_us = lk_us faithful_cfg.
+Proof. repeat split; vm_compute; reflexivity. Qed.
